@@ -190,8 +190,8 @@ class Driver:
         if getattr(self, 'swaps', 0):
             cl.append('representation_swapped')
         self.ctx.ev.case(None, nt=(len(cl) > 1 + self.stochastic_obs) or self.repeated_stochastic > 0, classes=cl,
-                         key=[self.cfg, self.nops, self.mid_resets, self.repeated_stochastic, id(self) % 10**9],
-                         sample={'cfg': self.cfg, 'ops': self.nops, 'mid_resets': self.mid_resets, 'repeated_stochastic_reads': self.repeated_stochastic})
+                         key=getattr(self, 'log', None) or [self.cfg, self.nops],
+                         sample={'op_log (first 40)': getattr(self, 'log', [])[:40], 'cfg': self.cfg, 'ops': self.nops, 'mid_resets': self.mid_resets, 'repeated_stochastic_reads': self.repeated_stochastic})
 
 
 def machine(tier, ctx, last):
